@@ -13,6 +13,7 @@ case "$id" in
   *.r5) src="/tmp/mut5-$prop/SEEDED" ;;
   *.r6) src="/tmp/mut6-$prop/SEEDED" ;;
   *.r7) src="/tmp/mut7-$prop/SEEDED" ;;
+  *.r8) src="/tmp/mut8-$prop/SEEDED" ;;
   *)    src="/tmp/mut-$prop/SEEDED" ;;
 esac
 dst="seeded/$id"
